@@ -68,8 +68,9 @@ def make_nodes(rng, kind, m):
         x = x + move
     elif kind == 'tiny_scale':
         # an ordinary non-uniform stencil in units of 1e-14 .. 1e-30 (and, less often, 1e+14 .. 1e+30): weights know no absolute scale
-        m = min(m, 6)
-        unit = 10.0 ** (rng.uniform(-30, -14) if rng.random() < 0.75 else rng.uniform(14, 30))
+        # (the scale is kept where every exact weight, at most unit^-(m-1), is still far inside the floating-point range)
+        emax = min(30.0, 230.0 / max(m - 1, 1))
+        unit = 10.0 ** (float(rng.choice([-1.0, -1.0, -1.0, 1.0])) * rng.uniform(min(12.0, 0.6 * emax), emax))
         x = unit * np.cumsum(rng.choice([1.0, 1.5, 0.5, 2.0], size=m)) * float(rng.choice([-1.0, 1.0]))
         if rng.random() < 0.4:
             x = rng.permutation(x)
